@@ -79,6 +79,12 @@ pub fn second_mount_base() -> Option<PathBuf> {
     }
 }
 
+/// Removes every scratch directory of this process (both mounts).
+pub fn cleanup_process_dirs() {
+    let _ = fs::remove_dir_all(scratch_base());
+    let _ = fs::remove_dir_all(std::env::temp_dir().join("log4rs-verif-x").join(std::process::id().to_string()));
+}
+
 pub struct Scratch {
     pub root: PathBuf,
 }
